@@ -113,8 +113,23 @@ func oneCase(c *vk.Ctx, i int, r *rand.Rand, p *sem.Prepared, srv *drive.Srv) {
 				c.Violation("", "panic|evaluation", "Evaluation panicked: "+err.Error(), nil)
 				continue
 			}
+			if (err != nil) != (no.Err != nil) && rc.AnyUnevaluable() {
+				c.Count("error_vs_decision_with_unevaluable_condition(not_judged)", 1)
+				continue // evaluation order decides between failing and deciding: C01's acceptance relation
+			}
 			if (err != nil) != (no.Err != nil) || (err == nil && dec != no.Allowed) {
-				c.Violation("", fmt.Sprintf("evaluation|%s|%s", ref.Shape(p.Ref.Rewrite(typeOf(rq.Object), rq.Relation)), k),
+				// both go through the same engine: a difference means the engine's answer is not stable;
+				// the side that disagrees with the reference is attributed to a known engine finding if its
+				// deviation model explains it
+				f := ""
+				if err == nil && no.Err == nil {
+					wrong := no
+					if (k == ref.T) == no.Allowed {
+						wrong = drive.Outcome{Allowed: dec}
+					}
+					f = sem.ClassifyCheck("C32", rc, rq, k, wrong, "")
+				}
+				c.Violation(f, fmt.Sprintf("evaluation|%s|%s", ref.Shape(p.Ref.Rewrite(typeOf(rq.Object), rq.Relation)), k),
 					fmt.Sprintf("Evaluation(subject %s, resource %s, action %s, ctx=%s, subject props %v) = decision %v err=%v, native Check = %s", rq.User, rq.Object, rq.Relation, gen.CtxString(rctx), props, dec, err, no),
 					wit(p, rq, no.String(), fmt.Sprintf("%v/%v", dec, err)))
 			}
@@ -149,6 +164,10 @@ func oneCase(c *vk.Ctx, i int, r *rand.Rand, p *sem.Prepared, srv *drive.Srv) {
 				continue
 			}
 			got := resp.GetEvaluations()
+			if rc.AnyUnevaluable() {
+				c.Count("evaluations_with_unevaluable_condition(not_judged)", 1)
+				continue
+			}
 			// expected length and content from the native answers
 			wantLen := n
 			for k := 0; k < n; k++ {
@@ -172,7 +191,15 @@ func oneCase(c *vk.Ctx, i int, r *rand.Rand, p *sem.Prepared, srv *drive.Srv) {
 				want := nat.o.Err == nil && nat.o.Allowed
 				if got[k].GetDecision() != want {
 					rq := window[k]
-					c.Violation("", fmt.Sprintf("evaluations-item|%s|%s", semn, nat.k),
+					f := ""
+					if nat.o.Err == nil {
+						wrong := nat.o
+						if (nat.k == ref.T) == nat.o.Allowed {
+							wrong = drive.Outcome{Allowed: got[k].GetDecision()}
+						}
+						f = sem.ClassifyCheck("C32", rc, rq, nat.k, wrong, "")
+					}
+					c.Violation(f, fmt.Sprintf("evaluations-item|%s|%s", semn, nat.k),
 						fmt.Sprintf("Evaluations(%s) item %d (subject %s, resource %s, action %s) = %v, native Check = %s", semn, k, rq.User, rq.Object, rq.Relation, got[k].GetDecision(), nat.o), wit(p, rq, nat.o.String(), fmt.Sprint(got[k].GetDecision())))
 				}
 				c.Count("evaluations_items_compared", 1)
@@ -198,7 +225,7 @@ func oneCase(c *vk.Ctx, i int, r *rand.Rand, p *sem.Prepared, srv *drive.Srv) {
 				return nil
 			})
 			c.Case(fmt.Sprintf("subjectsearch|%s|n=%d", ref.Shape(p.Ref.Rewrite(typeOf(nd[0]), nd[1])), len(lu.Items)), len(lu.Items) > 0)
-			compareSets(c, p, "SubjectSearch", nd[0], nd[1], "user", got, err, lu)
+			compareSets(c, p, rc, rc.AnyUnevaluable(), "SubjectSearch", nd[0], nd[1], "user", got, err, lu)
 		}
 		searches = 0
 		for _, t := range p.Ref.TypeNames() {
@@ -221,7 +248,7 @@ func oneCase(c *vk.Ctx, i int, r *rand.Rand, p *sem.Prepared, srv *drive.Srv) {
 						return nil
 					})
 					c.Case(fmt.Sprintf("resourcesearch|%s|n=%d", ref.Shape(p.Ref.Rewrite(t, rel)), len(lo.Items)), len(lo.Items) > 0)
-					compareSets(c, p, "ResourceSearch", t, rel, subj, got, err, lo)
+					compareSets(c, p, rc, rc.AnyUnevaluable(), "ResourceSearch", t, rel, subj, got, err, lo)
 				}
 			}
 		}
@@ -231,10 +258,14 @@ func oneCase(c *vk.Ctx, i int, r *rand.Rand, p *sem.Prepared, srv *drive.Srv) {
 	})
 }
 
-func compareSets(c *vk.Ctx, p *sem.Prepared, api, a, b, x string, got []string, err error, native drive.ListOutcome) {
+func compareSets(c *vk.Ctx, p *sem.Prepared, rc *ref.Case, unevaluable bool, api, a, b, x string, got []string, err error, native drive.ListOutcome) {
 	c.Count(strings.ToLower(api)+"_compared", 1)
 	if drive.CodeOf(err) == "PANIC" {
 		c.Violation("", "panic|"+api, api+" panicked: "+err.Error(), nil)
+		return
+	}
+	if (err != nil) != (native.Err != nil) && unevaluable {
+		c.Count("search_error_vs_result_with_unevaluable_condition(not_judged)", 1)
 		return
 	}
 	if (err != nil) != (native.Err != nil) {
@@ -249,7 +280,39 @@ func compareSets(c *vk.Ctx, p *sem.Prepared, api, a, b, x string, got []string, 
 	sort.Strings(g)
 	sort.Strings(n)
 	if strings.Join(g, ",") != strings.Join(n, ",") {
-		c.Violation("", "search-diff|"+api, fmt.Sprintf("%s(%s, %s, %s) = %v but the native call = %v", api, a, b, x, g, n), wit(p, sem.Request{Object: a, Relation: b, User: x}, strings.Join(n, ","), strings.Join(g, ",")))
+		// same engine on both sides: the answer is unstable; attribute each differing element to a known
+		// engine finding when its deviation model explains the side that disagrees with the reference
+		f := "?"
+		in := func(xs []string, v string) bool {
+			for _, y := range xs {
+				if y == v {
+					return true
+				}
+			}
+			return false
+		}
+		for _, v := range append(append([]string{}, g...), n...) {
+			if in(g, v) == in(n, v) {
+				continue
+			}
+			var rq sem.Request
+			if api == "ResourceSearch" {
+				rq = sem.Request{Object: v, Relation: b, User: x, Ctx: rc.Context}
+			} else {
+				rq = sem.Request{Object: a, Relation: b, User: v, Ctx: rc.Context}
+			}
+			k := rc.Eval(rq.User).K(rq.Object, rq.Relation)
+			ff := sem.ClassifyCheck("C32", rc, rq, k, drive.Outcome{Allowed: k != ref.T}, "")
+			if f == "?" {
+				f = ff
+			} else if f != ff {
+				f = ""
+			}
+		}
+		if f == "?" {
+			f = ""
+		}
+		c.Violation(f, "search-diff|"+api, fmt.Sprintf("%s(%s, %s, %s) = %v but the native call = %v", api, a, b, x, g, n), wit(p, sem.Request{Object: a, Relation: b, User: x}, strings.Join(n, ","), strings.Join(g, ",")))
 	}
 }
 
